@@ -1,7 +1,7 @@
 """C68 Kernel utilities return valid kernel matrices (partial).
 
 REPLAY: spec/sys/KernelCalls.tla enumerates, for an integer valued synthetic kernel function on integer data points,
-  * kernel_matrix cases (all data sets of sizes 1..3 x 1..3 over 3 point values, 4 kernel families incl. an asymmetric one),
+  * kernel_matrix cases (all data sets of sizes 1..3 x 1..3 over 2 (thorough: 3) point values, 4 kernel families incl. an asymmetric one),
   * square_kernel_matrix cases (all data sets of <= 4 points, both values of assume_normalized_kernel), modelled as one
     action per kernel call (upper triangle, mirrored; diagonal evaluated or set to 1 without a call); TLC checks on the
     model that for symmetric kernels the matrix built by the calls IS the entrywise matrix, is symmetric, has a unit
@@ -185,7 +185,7 @@ def run(tier, seed):
     quick = tier == "quick"
     rng = random.Random(6800 + seed)
     consts = {"MaxN": 4, "Vals": "{0, 1, 2}", "BigVals": "{0, 2}" if quick else "{0, 1, 2}", "ERange": 2 if quick else 3,
-              "MaxKM": 3}
+              "MaxKM": 3, "KMVals": "{0, 2}" if quick else "{0, 1, 2}"}
     r = run_tlc(tier, "gen", ["SquareOK", "CrossOK", "AlignOK", "PsdOK"], consts)
     if r.invariant_violated:
         raise MachineryError(f"KernelCalls model invariant {r.invariant_violated} violated: " + r.out[-1500:])
@@ -285,7 +285,7 @@ def run(tier, seed):
                     stats["bridged"] += 1
                     if w[0] < -1e-10:
                         add(f"{fn}:exact:not-psd:{c['base']}", f"{fn} output has eigenvalue {w[0]:.3g}", rep)
-                    if rr["already"] and not np.array_equal(got, Km):
+                    if rr["already"] and not (np.array_equal(got, Km) if min(c["ev"]) > 0 else np.allclose(got, Km, atol=1e-12, rtol=0)):
                         add(f"{fn}:exact:psd-input-changed:{c['base']}", f"{fn} changed a PSD input", rep)
                 if min(c["ev"]) < 0:
                     nontriv.add(("psd", c["base"], tuple(c["ev"])))
@@ -302,9 +302,9 @@ def run(tier, seed):
         raise MachineryError("vacuity: assume_normalized_kernel branch not exercised")
     # --- negative controls
     neg = 0
-    # (1) TLC: the claim 'the built matrix is always symmetric' must be refuted by the asymmetric probe kernel
-    rb = run_tlc(tier, "neg", ["NegSymmetricAlways"], {**consts, "MaxN": 2, "MaxKM": 1, "ERange": 0})
-    if rb.invariant_violated != "NegSymmetricAlways":
+    # (1) TLC: the claim 'the built matrix is the entrywise matrix for EVERY kernel' must be refuted by the asymmetric probe kernel
+    rb = run_tlc(tier, "neg", ["NegEntrywiseAlways"], {**consts, "MaxN": 2, "MaxKM": 1, "ERange": 0})
+    if rb.invariant_violated != "NegEntrywiseAlways":
         raise MachineryError("negative control accepted: TLC did not refute a false invariant")
     neg += 1
     # (2) comparator: hand-written wrong expectations
